@@ -3,6 +3,7 @@ from inspect import BoundArguments
 from inspect import Parameter
 from inspect import Signature
 from inspect import iscoroutinefunction
+from inspect import unwrap
 from itertools import chain
 from types import MethodType
 from typing import Any
@@ -16,11 +17,11 @@ def _make_key(method):
             (
                 method.__qualname__,
                 method.__self__.__class__.__name__,
-                method.__code__,
+                unwrap(method).__code__,
             )
         )
     else:
-        return hash((method.__qualname__, method.__code__))
+        return hash((method.__qualname__, unwrap(method).__code__))
 
 
 def signature_cache(user_function):
